@@ -97,6 +97,7 @@ def run(tier, seed):
 
     runs = [("MC_ChmodSym" + ("/T" if thorough else ""), "MC_ChmodSym_T.cfg" if thorough else "MC_ChmodSym.cfg", 8),
             ("MC_VfsPerm" + ("/T" if thorough else ""), "MC_VfsPerm_T.cfg" if thorough else "MC_VfsPerm.cfg", 8)]
+    vlib.scratch()          # created here: the background threads must not race for it
     threads = [threading.Thread(target=bg, args=r) for r in runs]
     for t in threads:
         t.start()
